@@ -11,6 +11,9 @@ Binding, two ways:
  (B2) the real page sequence (lines per page, side, blank) of every document is written to an ndjson trace that TLC
       validates with PaginationTrace.tla against the transition relation of the specification (AllowedEnds): an end that
       CSS allows but the deterministic model does not choose is accepted, everything else is rejected with a reason.
+Variants: every spelling of the break values (always, page-break-*, recto / verso, avoid-page), vertical page margins in
+percent (of the page height) with the page's vertical geometry checked, and two rules for one margin box (the more specific
+page selector wins).
 """
 import json
 import os
